@@ -78,6 +78,22 @@ theorem rxOracle_contract (tbl : Array Rx) : RxContract (rxOracle tbl) where
         have := rxMatchAt_bounds r (toArr s) p e c hm
         rw [toArr_size] at this
         exact ⟨rfl, this.1, this.2.1⟩
+  matchEnd := by
+    intro id s p m h
+    unfold rxOracle at h
+    split at h
+    · cases h
+    · rename_i r _
+      simp only [Bool.false_eq_true, if_false] at h
+      cases hm : rxMatchAt r (toArr s) p with
+      | none => simp [hm] at h
+      | some ec =>
+        obtain ⟨e, c⟩ := ec
+        simp [hm] at h
+        subst h
+        have := rxMatchAt_bounds r (toArr s) p e c hm
+        rw [toArr_size] at this
+        exact this.2.2
   searchSome := by
     intro id s p m h
     unfold rxOracle at h ⊢
